@@ -8,7 +8,7 @@
     10  model set_val (real)     fmt r o raw arr vd              -> codes, flags, read-back values
 *)
 From Coq Require Import ZArith List Bool.
-From FxpVerif Require Import Spec SpecArith NP Store Status Convert Arith Div Conv Bitwise Strings Dtype Shift Sizes Wire.
+From FxpVerif Require Import Spec SpecArith NP Store Status Convert Arith Div Conv Bitwise Strings Dtype Shift Sizes Reduce Wire.
 Import ListNotations.
 Open Scope Z_scope.
 
@@ -165,5 +165,11 @@ Definition dispatch (req : list Z) : list Z :=
                      (init_size (match sg_ with 0 => Some false | 1 => Some true | _ => None end)
                                 (if hw : bool then Some w else None) (if hf : bool then Some fr else None) (if hi : bool then Some ni else None)
                                 64 (if hv : bool then Some vs else None))) t
+  (* 110: reductions on one slice: kind (0 sum,1 cumsum,2 prod) f count slice ; 111: dot fx fy xs ys *)
+  | 110 :: t => run (k <- dZ ;; f <- dfmt ;; cnt <- dZ ;; l <- dlist dZ ;; dret (k, f, cnt, l))
+                (fun '(k, f, cnt, l) => eoutcome (fun p => efmt (fst p) ++ ewres (fst p) (snd p))
+                   (match k with 0 => fxp_sum f cnt l Trunc Saturate | 1 => fxp_cumsum f cnt l Trunc Saturate | _ => fxp_prod f cnt l Trunc Saturate end)) t
+  | 111 :: t => run (fx <- dfmt ;; fy <- dfmt ;; xs <- dlist dZ ;; ys <- dlist dZ ;; dret (fx, fy, xs, ys))
+                (fun '(fx, fy, xs, ys) => eoutcome (fun p => efmt (fst p) ++ ewres (fst p) (snd p)) (fxp_dot fx fy xs ys Trunc Saturate)) t
   | _ => bad_request
   end.
